@@ -559,11 +559,14 @@ pub fn apply(s: &mut Pool2, step: &Step, ctx: &mut Ctx) {
                 }
             }
         }
-        Op::Provide { amounts, slippage, receiver, rev } => {
+        Op::Provide { amounts, slippage, receiver, rev, funds_mode } => {
+            s.funds_mode_next.set(*funds_mode);
+            if *funds_mode != 0 { ctx.probe("provide_with_missing_native_funds"); }
             s.rev_next.set(*rev);
             if *rev { ctx.probe("provide_assets_listed_in_reverse_order"); }
             do_provide(s, ctx, actor, *amounts, slippage, *receiver, step.fault, "provide");
             s.rev_next.set(false);
+            s.funds_mode_next.set(0);
         }
         Op::DepositWithdraw { amounts } => {
             let lp0 = s.lp_bal(who);
@@ -699,7 +702,7 @@ fn do_provide(
             let mut exp_users = before.users.clone();
             exp_users[actor][0] -= amounts[0].min(exp_users[actor][0]);
             exp_users[actor][1] -= amounts[1].min(exp_users[actor][1]);
-            if exp_users != after.users || after.pair_bal[0] != before.pair_bal[0] + amounts[0] || after.pair_bal[1] != before.pair_bal[1] + amounts[1] {
+            if exp_users != after.users || u256(after.pair_bal[0]) != u256(before.pair_bal[0]) + u256(amounts[0]) || u256(after.pair_bal[1]) != u256(before.pair_bal[1]) + u256(amounts[1]) {
                 ctx.fail("C01", "deposit_funds_received", opname, None,
                     format!("deposit {:?}: pool balances {:?} -> {:?}", amounts, before.pair_bal, after.pair_bal));
             }
@@ -917,7 +920,8 @@ fn do_collect(s: &mut Pool2, ctx: &mut Ctx, actor: usize, fault: Fault) {
             let left = before.pair_bal[i] - after.pair_bal[i];
             s.model.received[i] += got;
             let p = before.pending[i];
-            if p == 0 { ctx.probe("collect_pending_zero"); } else if p <= 1000 { ctx.probe("collect_below_threshold"); } else if p == 1001 { ctx.probe("collect_at_1001"); } else { ctx.probe("collect_above_threshold"); }
+            if p == 0 { ctx.probe("collect_pending_zero"); } else if p <= 1000 { ctx.probe("collect_below_threshold"); } else if p == 1001 { ctx.probe("collect_at_1001"); }
+            if p == 1000 { ctx.probe("collect_at_1000"); } else { ctx.probe("collect_above_threshold"); }
             // amounts up to the documented minimum collectable balance may stay owed (nothing moves,
             // ledger unchanged); everything else is transferred in full
             let stays_owed = p <= 1000 && got == 0 && left == 0 && after.pending[i] == p;
